@@ -46,7 +46,9 @@ func init() {
 					Threads: []ThreadSpec{
 						{Name: "a1", Ops: append(append([]Op{}, rec...), Op{Op: "inc", H: "s", M: "c", V: 2})},
 						{Name: "a2", Ops: []Op{{Op: "sub", H: "t", Tags: map[string]string{"k": "v"}}, {Op: "inc", H: "t", M: "c", V: 3}, {Op: "upd", H: "t", M: "g", V: 1}}},
-						{Name: "z1", Ops: []Op{{Op: "rootclose"}, {Op: "rootclose"}, {Op: "sub", H: "late", Name: "late"}, {Op: "inc", H: "late", M: "c", V: 7}}},
+						// z1 holds a sub-scope from before Close: what it derives from that handle after Close is inert too
+						{Name: "z1", Ops: []Op{{Op: "sub", H: "old", Name: "o"}, {Op: "rootclose"}, {Op: "rootclose"}, {Op: "sub", H: "late", Name: "late"}, {Op: "inc", H: "late", M: "c", V: 7},
+							{Op: "sub", H: "late2", P: "old", Name: "x"}, {Op: "inc", H: "late2", M: "c", V: 7}, {Op: "sub", H: "late3", P: "old", Tags: map[string]string{"k": "w"}}, {Op: "rec", H: "late3", M: "t", V: 1}}},
 						{Name: "z2", Ops: []Op{{Op: "rootclose"}, {Op: "sub", H: "late", Name: "late2"}, {Op: "inc", H: "late", M: "c", V: 7}}},
 					}}})
 				// a root created without an interval behaves the same
